@@ -291,8 +291,205 @@ class EditRunner(G.Runner):
             ans = 'diff:indexes'
         return self._emit('FS|%s|%s|%s' % (hsl(paths), hsl(methods), self._env_txt(env)), ans)
 
+    # -- listing / key-form probes (lean/OmbottModel/Drv/RouterListing.lean) ---------------------
+    def _fid(self, f):
+        if f is None:
+            return '~'
+        for k, v in self.FF._filter_cache.items():
+            if v[0] is f:
+                return hs(k)
+        raise core.Infra('filter handler not in the cache')
+
+    def _name_handlers(self):
+        """give every registered handler a printable identity: `str(handler)` is rewritten to
+        `h<id>` (see `_canon_text`), `handler_fullname` becomes `m.h<id>`"""
+        for rt in self.router.routes.values():
+            for rm in rt.methods.values():
+                fn = rm.handler
+                fn.__module__ = 'm'
+                fn.__qualname__ = 'h%d' % self._hid_of(fn)
+
+    @staticmethod
+    def _canon_text(t):
+        return re.sub(r'<function (h\d+) at 0x[0-9a-fA-F]+>', r'\1', t)
+
+    def observe_path(self, path):
+        """what a consumer reads off one yielded node path (independent of the model: plain
+        indexing of the list nodes)"""
+        from ombott.router.radidict import KEY, PARAMS, FILTER, HOOKS, DATA
+        pat = ''.join(n[KEY] for n in path[1:])
+        flt = [n[FILTER] for n in path[1:] if n[KEY] == G.TOKEN]
+        last = path[-1]
+        return pat, flt, list(last[PARAMS]), last[DATA], last[HOOKS]
+
+    def list_iter(self, startswith='', yield_hooks=False):
+        rd = self.router.radidict
+        paths = core.with_timeout(lambda: list(rd._routes_iter(startswith=startswith or None, yield_hooks=yield_hooks)))
+        out = []
+        for path in paths:
+            pat, flt, keys, data, hooks = self.observe_path(path)
+            fl = ','.join(self._fid(f) for f in flt) if flt else '-'
+            d = '~' if data is None else self.show_route(data)
+            hk = '~' if not hooks else '%s.%s' % ('~' if hooks[0] is None else hooks[0].hid, '~' if hooks[1] is None else hooks[1].hid)
+            out.append('%s/%s/%s/%s/%s' % (hs(pat), fl, hsl(keys), d, hk))
+        return self._emit('LI|%s|%d' % (hs(startswith), 1 if yield_hooks else 0), ';'.join(out) or '~')
+
+    def list_dicts(self):
+        return self._emit('LR', 'routes=%s;named=%s' % (hsl(list(self.app.routes)), hsl(list(self.router.named_routes))))
+
+    def list_text(self):
+        from ombott.router.radidict import DATA
+        self._name_handlers()
+        lines = []
+        for path in self.router.radidict._routes_iter():
+            rt = path[-1][DATA]
+            lines.append(repr(rt))
+            for m in rt.methods.values():
+                lines += [repr(m), str(m), m.handler_fullname]
+        return self._emit('LS', hs(self._canon_text('\n'.join(lines))))
+
+    @staticmethod
+    def enc_atom(v):
+        if v is None:
+            return 'N'
+        if isinstance(v, str):
+            return 'S' + hs(v)
+        return 'I1' if v else 'I0'
+
+    @classmethod
+    def enc_key(cls, key):
+        """key forms: ('n', name) | ('s', [atoms]) | ('d', [(k, v)]) | ('k', rule, pattern) | ('o', object)"""
+        k = key[0]
+        if k == 'n':
+            return 'n.' + hs(key[1])
+        if k == 's':
+            return 's:' + ','.join(cls.enc_atom(a) for a in key[1])
+        if k == 'd':
+            return 'd:' + ','.join('%s=%s' % (cls.enc_atom(a), cls.enc_atom(b)) for a, b in key[1])
+        if k == 'k':
+            return 'k:%s:%s' % (cls.enc_atom(key[1]), cls.enc_atom(key[2]))
+        return 'o'
+
+    @staticmethod
+    def make_key(key):
+        from ombott.router.radirouter import RouteKey
+        k = key[0]
+        if k == 'n':
+            return key[1]
+        if k == 's':
+            return set(key[1])
+        if k == 'd':
+            return dict(key[1])
+        if k == 'k':
+            return RouteKey(key[1], pattern=key[2])
+        return key[1]
+
+    @staticmethod
+    def key_rule(key):
+        """the rule text a key form carries (for the filters it may ask `make_filter` to build)"""
+        k = key[0]
+        if k == 's' and len(key[1]) == 1 and isinstance(key[1][0], str):
+            return key[1][0]
+        if k == 'd' and len(key[1]) == 1 and key[1][0][0] == 'rule' and isinstance(key[1][0][1], str):
+            return key[1][0][1]
+        if k == 'k' and isinstance(key[1], str):
+            return key[1]
+        return None
+
+    def lookup_key(self, key):
+        """`router[key]` (the route, or raises)"""
+        return core.with_timeout(lambda: self.router[self.make_key(key)])
+
+    def by_key(self, key):
+        rule = self.key_rule(key)
+        cerr = self._cerr(rule) if rule else '~'
+        try:
+            ans = self.show_route(self.lookup_key(key))
+        except core.Hang:
+            raise
+        except Exception as e:
+            ans = 'err:' + G.err_name(e)
+        return self._emit('LK|%s|%s' % (self.enc_key(key), cerr), ans)
+
+    def clash_text(self, rule):
+        """text of the RadiDictKeyError a registration of `rule` meets (read-only: `_match` tells
+        whether `add` would stop at a filter clash, which it does before touching the tree)"""
+        from ombott.router.radidict import MismatchType, RadiDictKeyError
+        if not G.in_domain(rule):
+            return None
+        cerr = self._cerr(rule)
+        try:
+            route = self.Route(rule)
+        except Exception as e:
+            return self._emit('LE|%s|%s' % (hs(rule), cerr), 'err:' + G.err_name(e))
+        rd = self.router.radidict
+        mm = rd._match(route.pattern, param_filters=route.filters)[1]
+        ans = 'none'
+        if mm == MismatchType.FILTER:
+            try:
+                rd.add(route.pattern, route, route.params_signature())
+                raise core.Infra('clash probe changed the tree')
+            except RadiDictKeyError as e:
+                ans = hs(str(e))
+        return self._emit('LE|%s|%s' % (hs(rule), cerr), ans)
+
+    def method_clash_text(self, rule, methods):
+        idx = len(self.ops)
+        cerr = self._cerr(rule)
+        from ombott.router.errors import RouteMethodError
+        try:
+            rt = self.router[{rule}]
+        except Exception:
+            rt = None
+        if rt is None:
+            ans = 'noroute'
+        else:
+            self._name_handlers()
+
+            def cand():
+                pass
+            cand.__module__ = 'm'
+            cand.__qualname__ = 'h%d' % idx
+            try:
+                rt._raise_if_registered(list(methods), cand)
+                ans = 'none'
+            except RouteMethodError as e:
+                ans = hs(self._canon_text(str(e)))
+        return self._emit('LC|%s|%s|%s' % (hs(rule), hsl(methods), cerr), ans)
+
+    def render(self, pattern, names):
+        return self._emit('LP|%s|%s' % (hs(pattern), hsl(names)),
+                          hs(self.router.radidict._render_route(pattern, list(names))))
+
+    def unpack(self, rule):
+        cerr = self._cerr(rule)
+        try:
+            ex, fl, keys = self.router.radidict.params_unpack(self.Route(rule).params_signature())
+            ans = '%s/%s/%s' % (hsl(keys), ','.join(self._fid(f) for f in fl) if fl else '-',
+                                ','.join('1' if e else '0' for e in ex) if ex else '-')
+        except Exception as e:
+            ans = 'err:' + G.err_name(e)
+        return self._emit('LU|%s|%s' % (hs(rule), cerr), ans)
+
+    def remove_route(self, rule=None, name=None, pattern=None):
+        """`Ombott.remove_route(rule, route_pattern=pattern, name=name)`"""
+        cerr = self._cerr(rule) if rule else '~'
+        ans = self._outcome(lambda: self.app.remove_route(rule, route_pattern=pattern, name=name))
+        out = ans if ans == 'ok' else ans[4:]
+        if rule is not None:
+            self._spec(lambda sp: sp.remove_rule(rule, out))
+        elif name is not None:
+            self._spec(lambda sp: sp.remove_name(name, out))
+        elif pattern is not None:
+            self._spec(lambda sp: sp.remove_pattern(pattern, out))
+        o = lambda v: '~' if v is None else hs(v)
+        return self._emit('WX|%s|%s|%s|%s' % (o(rule), o(name), o(pattern), cerr), ans)
+
+    LISTING_OPS = ('LI', 'LR', 'LS', 'LK', 'LE', 'LC', 'LP', 'LU', 'WX')
+
     def line(self):
-        return 'redit hist ' + ' '.join(self.ops)
+        area = 'rlist' if any(op.split('|')[0] in self.LISTING_OPS for op in self.ops) else 'redit'
+        return area + ' hist ' + ' '.join(self.ops)
 
 
 def play(run, ops):
@@ -325,11 +522,29 @@ def play(run, ops):
             run.get(op[1])
         elif k == 'FS':
             run.fresh_same(op[1], op[2])
+        elif k == 'LI':
+            run.list_iter(op[1], op[2])
+        elif k == 'LR':
+            run.list_dicts()
+        elif k == 'LS':
+            run.list_text()
+        elif k == 'LK':
+            run.by_key(op[1])
+        elif k == 'LE':
+            run.clash_text(op[1])
+        elif k == 'LC':
+            run.method_clash_text(op[1], op[2])
+        elif k == 'LP':
+            run.render(op[1], op[2])
+        elif k == 'LU':
+            run.unpack(op[1])
+        elif k == 'WX':
+            run.remove_route(op[1], op[2], op[3])
         else:
             raise core.Infra('unknown op %r' % (op,))
 
 
-EDIT_KINDS = ('A', 'X', 'XN', 'H', 'XH')
+EDIT_KINDS = ('A', 'X', 'XN', 'H', 'XH', 'WX')
 
 
 # ---------------------------------------------------------------------------------------------
@@ -518,6 +733,12 @@ class Spec:
         if outcome != 'ok':
             return
         pat, _ = self.parse(rule)
+        self.remove_pattern(pat, outcome)
+
+    def remove_pattern(self, pat, outcome):
+        """`remove_route(route_pattern=pat)`: the pattern string as it is"""
+        if outcome != 'ok':
+            return
         if pat.endswith('*'):
             pre = pat[:-1]
             gone = {p for p in self.routes if p.startswith(pre)}
